@@ -56,6 +56,18 @@ std::string ser(const Doc &d, Mode m = EXACT, bool with_cat = false);
 std::string ser_plain(const Doc &d);
 bool parse_doc(const std::string &s, Doc &out);
 
+// Independent normalisation pipeline (ICU unorm2 NFD -> u_strFoldCase -> unorm2 NFC; the library itself calls the older
+// unorm_normalize API) used by oracles that must match names the way CIF does.
+ustr norm_name(const ustr &s);
+ustr nfc(const ustr &s);
+ustr nfd(const ustr &s);
+// CIF-equivalence of a re-read document with its original (C02/C13): containers by code, loops by item-name set (both
+// under norm_name), packets as multisets, values equal in text / quoted status / recursive structure where NUMB and CHAR
+// with the same text are the same value and an originally unquoted string starting with ';' may come back quoted;
+// table keys compared under NFC.  Returns "" when equivalent, else a description of the first difference.
+std::string equiv_diff(const Doc &orig, const Doc &back);
+std::string value_equiv_diff(const Value &orig, const Value &back);
+
 // ---- library bridges (public API only) ------------------------------------------------
 // All return a CIF result code; on failure everything acquired is released.
 int to_cif(const Value &v, cif_value_tp **out);       // *out may be NULL (created) or an existing value
